@@ -21,16 +21,15 @@ LEVEL_TEXT = ("Lean theorems about total executable models of all seven parsers 
               "over ALL byte strings and options is proved for the repaired FASTA, Stockholm, Nexus, Phylip and partition parsers "
               "(fasta_outcome_fixed, stockholm_outcome_fixed, nexus_outcome_fixed, phylip_outcome_fixed, partition_outcome, "
               "addRange_in_bounds for all 64-bit "
-              "start/end/modulo); for Clustal everything but 'at least one column' is proved "
-              "(clustal_outcome_fixed_partial: no panic, no hang, non-empty, rectangular, distinct names); the unrepaired code "
+              "start/end/modulo); likewise Clustal (clustal_outcome_fixed); the unrepaired code "
               "is refuted by kernel-evaluated counter-examples. Models are tied to /repo by regenerated "
               "guard facts + differential correspondence on every generated input; the C03 predicate itself is evaluated "
               "by the compiled oracle on the implementation's outcome for every input.")
 LEVEL_NOTE = ("Trusted: Lean kernel; harness + python watchdog (hang = no answer within 3 s on inputs < 1 kB); the naive "
               "header scanners of Spec/Fmt.lean; tools/extract/fmtfacts.go (syntactic recognition of the guards); "
               "bufio/UTF-8 decoding (models are ASCII-only: non-ASCII inputs carry no correspondence obligation but are "
-              "still judged by the predicate). 'At least one column' for Clustal and termination of the multi-Phylip "
-              "stream loop are open: see evidence 'partial'.")
+              "still judged by the predicate). Header-count consistency and termination of the multi-Phylip "
+              "stream loop are checked on the implementation only: see evidence 'partial'.")
 TECHNIQUE = "Lean 4 proof (total parser models, container invariant by induction over token lists) + exhaustive-truncation / mutation differential run"
 LEAN_MODULES = ["Gv.Props.C03"]
 REQUIRED_THEOREMS = ["Gv.Props.C03." + n for n in [
@@ -43,7 +42,7 @@ REQUIRED_THEOREMS = ["Gv.Props.C03." + n for n in [
     "partition_counterexample_overflow_panic", "partition_patched_witness", "addRange_in_bounds", "newPSet_inv",
     "partition_outcome", "phylip_outcome_partial", "phylip_multi_wellformed", "clustal_outcome_partial",
     "nexus_outcome_partial", "clustal_no_panic", "phylip_no_panic", "nexus_no_panic", "nexus_outcome_fixed", "clustal_no_hang", "clustal_outcome_fixed_partial",
-    "phylip_no_hang", "phylip_outcome_fixed"]]
+    "phylip_no_hang", "phylip_outcome_fixed", "clustal_outcome_fixed"]]
 TRUSTED = ["bufio.Reader / UTF-8 rune decoding (inputs with bytes >= 128 are judged by the predicate only)",
            "python watchdog: hang = no answer within TIMEOUT",
            "tools/extract/fmtfacts.go: recognises the proposed guards syntactically; the models are parametric in these facts"]
@@ -61,21 +60,17 @@ RULE = ("valid files of each format (python writers + hand-written variants: int
         "non-trivial = differs from every seed file and the first changed byte lies beyond the header")
 
 PARTIAL = [
-    "FASTA, Stockholm, Nexus, Phylip (strict/relaxed), partition parser (+AddRange): the full C03 outcome statement is "
-    "proved for the repaired code over all byte strings (fasta_outcome_fixed, stockholm_outcome_fixed, nexus_outcome_fixed, "
-    "phylip_outcome_fixed, partition_outcome); the "
-    "unrepaired variants are covered by "
-    "*_partial theorems and kernel-evaluated counter-examples",
-    "Phylip multi (ParseMultiple): every alignment handed on is well formed (phylip_multi_wellformed); termination of the "
-    "stream loop itself (each successful parse consumes input) is open; 'blank up to EOF' for the end-of-stream marker and "
-    "consistency with the header counts are checked by the oracle predicate only",
-    "Nexus: consistency of a success with the declared ntax / nchar is checked by the oracle predicate on every run, "
-    "not proved",
-    "Clustal: proved: a success is non-empty, rectangular, distinct names (clustal_outcome_partial), the repaired parser "
-    "never panics and never hangs (clustal_no_panic, clustal_no_hang, clustal_outcome_fixed_partial); OPEN: at least one "
-    "column (needs the loop invariant that sequence tokens are non-empty)",
-    "ParseAlignmentAuto: modelled in the oracle as a dispatch over the single-parser models; no separate theorem",
-    "inputs with bytes >= 128 (UTF-8 decoding) and Phylip allocations of 2^27..2^44 entries: predicate only, no model",
+    "all seven parsers: the full C03 outcome statement (explicit error / exit with message / well-formed result; never a "
+    "panic, never a hang) is PROVED for the repaired code over all ASCII byte strings and all options: fasta_outcome_fixed, "
+    "phylip_outcome_fixed (strict and relaxed), nexus_outcome_fixed, clustal_outcome_fixed, stockholm_outcome_fixed, "
+    "partition_outcome (+ addRange_in_bounds); the unrepaired variants are covered by *_partial theorems and "
+    "kernel-evaluated counter-examples",
+    "NOT proved, checked on the implementation by the oracle predicate on every run: consistency of a success with the "
+    "counts declared in the Phylip / Nexus header; 'blank up to EOF' for the Phylip end-of-stream marker; termination of "
+    "the multi-Phylip stream loop (every alignment it hands on is proved well formed: phylip_multi_wellformed)",
+    "ParseAlignmentAuto: modelled as a first-byte dispatch over the single-parser models (C02.autodetect_selects_written_format)",
+    "inputs with bytes >= 128 (UTF-8 decoding, incl. the repaired rune-index panic of strict Phylip names) and Phylip "
+    "allocations of 2^27..2^44 entries (unrepaired code only): predicate only, no model",
 ]
 
 BYTE_CLASSES = [b"\n", b"\r", b" ", b"\t", b"\x00", b">", b"#", b"[", b"]", b";", b"=", b",", b"-", b"/", b":",
